@@ -133,6 +133,8 @@ ADD = {
 ADD6 = {
  "C03": ("branch-condition stacks (if/else, match arms, short-circuit operands) over the syntax tree for the D.digits discharge",
          " (D.digits) every unwrap on a conversion of the number text sits where no float part was appended."),
+ "C04": ("the non-zero conjunct of the leading-zero condition evaluated on digit strings (N1); compare_strict uses recognised through map_err (L2)",
+         ""),
  "C05": ("branch-condition stacks incl. short-circuit operands in lex_string (S2)",
          " (S2) after the closing quote of a plain literal nothing further is consumed: consuming calls on a quote character require triple_quoted on their path."),
  "C06": ("conversion inventory of parse_bytes (B2); evaluation of lex_string's opening and closing quote decisions over (triple_quoted, two more quotes follow), following a private helper one level (S1); provenance of the value fields of Int/Float/Complex tokens (V1)",
